@@ -96,6 +96,20 @@ type lvImport struct {
 	tag string
 }
 
+// lvCtx carries the protosource files under the package's context key, as Before() does with context.WithValue
+// (context.WithValue itself needs reflectlite, which the engine does not run).
+type lvCtx struct {
+	context.Context
+	files []bufprotosource.File
+}
+
+func (c lvCtx) Value(key any) any {
+	if _, ok := key.(protosourceFilesContextKey); ok {
+		return c.files
+	}
+	return nil
+}
+
 // lvWant accumulates, per element kind, the tags a lint rule must visit (elements of non-import files only).
 type lvWant struct {
 	files, msgs, enums, values, fields, oneofs, svcs, methods, imports []string
@@ -182,7 +196,7 @@ func VerifLemma_C05E_Iterators() {
 		files = append(files, f)
 		stubs = append(stubs, f)
 	}
-	ctx := context.WithValue(context.Background(), protosourceFilesContextKey{}, files)
+	ctx := lvCtx{Context: context.Background(), files: files}
 	var got []string
 	var err error
 	kind := verifNondetChoice(12)
